@@ -10,6 +10,8 @@ const (
 	szOver1  = 1_000_001 // one byte more: must be dropped
 	sz101    = 1_010_000 // ≈ 1.01 MB
 	szAlmost = 999_999
+	sz5p2    = 5_200_000 // alone larger than a whole request body may be
+	sz6      = 6_000_000
 )
 
 var retryAfters = []string{"", "0", "1", "59", "60", "date"}
@@ -128,5 +130,10 @@ func buildGroups(r *ev.Run) []*group {
 	}
 	gs = append(gs, &group{Name: "faults", Ms: []int{1, 2}, Compress: true, Dests: []string{"A", "B"}, Sizes: []int{szSmall},
 		MaxEnq: 3, MaxAdv: ev.Pick(r, 4, 6), Scripts: scripts(3, faultKinds(th), pairs), Prefix: 0})
+	// events that alone exceed the 5 MB request limit: dropped and counted like any event over 1 MB, alone and with
+	// small events of the same destination before / behind them. LAST group: a non-terminating send poisons the
+	// worker process (see quiesce), which then gives up its remaining cases.
+	gs = append(gs, &group{Name: "huge", Ms: []int{1, 2, 3}, Compress: false, Dests: []string{"A"}, Sizes: []int{szSmall, sz5p2, sz6},
+		MaxEnq: 3, Wait: true, Scripts: [][]answer{{}, {{Kind: "429", RA: "1"}}}, Prefix: 1, Veto: noEnqAfterTime})
 	return gs
 }
